@@ -131,6 +131,7 @@ class Exec(BufMixin, FlatMixin):
         for (h, g, sk) in smt.to_goals(form):
             g = simp(g)
             ob = Obligation(nm, kind, fr.fname if fr else '?', lineno, list(st.pc) + list(h), list(st.qfacts), g, sk, clause)
+            ob.flatten = smt.FLATTEN[0]
             if splits:
                 # proof-by-cases hint of the contract: bound variable name -> terms it should be compared with
                 ob.split_terms = {}
@@ -645,7 +646,7 @@ class Exec(BufMixin, FlatMixin):
             self.safety(st, fr, kind, cond, node)
         r = binop(opn, a, b, ob)
         if opn == 'Mod' and is_sym(r) and r.sort() == REAL and not (is_intlike(a) and is_intlike(b)):
-            self.ctx.add_axioms([z3.Implies(ZR(b) > 0, z3.And(r >= 0, r < ZR(b)))])
+            st.pc.append(z3.Implies(ZR(b) > 0, z3.And(r >= 0, r < ZR(b))))
         return r
 
     def ev_BoolOp(self, e, st, fr):
